@@ -86,6 +86,8 @@ fn alpha_beta_search(
     }
 
     search_info.node_searched();
+    #[cfg(walleye_verif)]
+    crate::verif::note_node(ply_from_root, allow_null);
 
     // check for draw
     if draw_table.is_threefold_repetition(board) {
@@ -270,6 +272,8 @@ pub fn get_best_move(
     time_to_move_ms: u128,
     tx: &BoardSender,
 ) {
+    #[cfg(walleye_verif)]
+    let _verif_scope = crate::verif::search_scope();
     let mut cur_depth = 1;
     let ply_from_root = 0;
     let mut best_move: Option<BoardState> = None;
@@ -280,16 +284,22 @@ pub fn get_best_move(
     let mut moves = generate_moves(board, MoveGenerationMode::AllMoves, &zobrist_hasher);
 
     while cur_depth < MAX_DEPTH {
+        #[cfg(walleye_verif)]
+        crate::verif::iteration_start(cur_depth);
         let mut alpha = NEG_INF;
         let beta = POS_INF;
         search_info.reset_search();
         moves.sort_unstable_by_key(|k| Reverse(k.order_heuristic));
         for mov in &moves {
+            #[cfg(walleye_verif)]
+            crate::verif::failpoint("search_root_move");
             // make an effort to exit once we are out of time
             if out_of_time(start, time_to_move_ms) {
                 // if we have not found a move to send back, send back the best move as determined by the order_heuristic
                 // this can happen on very short time control situations
                 if best_move.is_none() {
+                    #[cfg(walleye_verif)]
+                    crate::verif::on_send(&moves[0], true);
                     tx.send(moves[0].clone()).unwrap();
                 }
                 return;
@@ -315,6 +325,8 @@ pub fn get_best_move(
                 //alpha raised, remember this line as the pv
                 alpha = evaluation;
                 best_move = Some(mov.clone());
+                #[cfg(walleye_verif)]
+                crate::verif::on_send(mov, false);
                 tx.send(mov.clone()).unwrap();
                 search_info.set_principle_variation();
                 send_search_info(&search_info, cur_depth, evaluation, start);
